@@ -173,16 +173,18 @@ def _array_attr(ctx, o, c, name):
         def astype(cx, a, k, _o=o):
             items = cx.cell(_o).items
             t = a[0] if a else k.get("dtype")
-            conv = t if not (isinstance(t, Ext) and t.obj in (float, np.float64)) else None
-            out = [bi_float(cx, [x], {}) if conv is None else cx.call(conv, [x], {}) for x in items]
-            return _mk_array(cx, out)   # a new array (copy), as numpy does by default
+            if isinstance(t, Ext) and t.obj in (float, np.float64, np.float32):
+                return _mk_array(cx, list(items), "float")   # a new array (copy), as numpy does by default
+            if isinstance(t, Ext) and t.obj in (int, np.int64, np.int32):
+                return _mk_array(cx, list(items), "int")
+            return _mk_array(cx, [cx.call(t, [x], {}) for x in items])
         return SpecFn("ndarray.astype", astype)
     if name in ("copy", "flatten", "ravel"):
-        return SpecFn("ndarray." + name, lambda cx, a, k, _o=o: _mk_array(cx, list(cx.cell(_o).items)))
+        return SpecFn("ndarray." + name, lambda cx, a, k, _o=o: _mk_array(cx, list(cx.cell(_o).items), getattr(cx.cell(_o), "dtype", None)))
     if name == "tolist":
         return SpecFn("ndarray.tolist", lambda cx, a, k, _o=o: cx.new_list(list(cx.cell(_o).items)))
     if name == "dtype":
-        return Ext(np.dtype(float))
+        return Ext(np.dtype({"int": np.int64, "bool": np.bool_, "str": np.str_}.get(getattr(c, "dtype", "float"), np.float64)))
     return _NOATTR
 
 
@@ -206,7 +208,8 @@ def m_full_like(ctx, args, kw):
         return NotImplemented
     fill = args[1]
     fc = ops._array_cell(ctx, fill)
-    return _mk_array(ctx, list(fc.items) if fc is not None else [fill] * len(c.items))
+    # the new array has the dtype of the prototype: a float fill value is truncated when the prototype holds integers
+    return _mk_array(ctx, list(fc.items) if fc is not None else [fill] * len(c.items), getattr(c, "dtype", "float"))
 
 
 @model(np.abs, np.absolute, _b.abs, np.fabs)
@@ -1640,10 +1643,8 @@ def _as_items(ctx, v):
     return None
 
 
-def _mk_array(ctx, items):
-    r = ctx.new_list(items)
-    ctx.cell(r).is_array = True
-    return r
+def _mk_array(ctx, items, dtype=None):
+    return ops.make_array(ctx, items, dtype)
 
 
 @model(np.array, np.asarray)
@@ -1651,8 +1652,12 @@ def m_np_array(ctx, args, kw):
     items = _as_items(ctx, args[0])
     if items is None or not any_sym(ctx, items):
         return NotImplemented
-    ctx.assumed.add("np.array(list of scalars): one-dimensional array with the same elements in the same order")
-    return _mk_array(ctx, list(items))
+    ctx.assumed.add("np.array(list of scalars): one-dimensional array with the same elements in the same order (dtype int / float / bool as numpy infers it, or as requested)")
+    dt = kw.get("dtype", args[1] if len(args) > 1 else None)
+    want = None
+    if isinstance(dt, Ext):
+        want = "float" if dt.obj in (float, np.float64, np.float32) else ("int" if dt.obj in (int, np.int64, np.int32) else None)
+    return _mk_array(ctx, list(items), want)
 
 
 @model(np.argsort)
